@@ -25,6 +25,7 @@ func cmdVerify(args []string) {
 	}
 	defer p.cleanup()
 	defer cleanupQueries()
+	defer saveStrategy()
 	db := loadContracts(p)
 	for _, e := range db.Errors {
 		fmt.Println("CONTRACT ERROR:", e)
